@@ -964,6 +964,9 @@ impl<T> Task<T> {
 }
 
 pub fn pin_to_cpu(cpu: usize) {
+    if cfg!(miri) {
+        return;
+    }
     unsafe {
         let mut set: libc::cpu_set_t = std::mem::zeroed();
         libc::CPU_ZERO(&mut set);
